@@ -94,8 +94,18 @@ CONFIGS = {
          {'urn:n': '1x', 'b': '\u2103'}),
         ('N3-R1-names2', dict(N=3, Kinds={"a0", "b0", "an", "xan", "t"}, RootCfg="R1", Decls={"p"}, DocLevel=False),
          {'urn:n': "it's", 'b': '\u0928\u093e\u092e'}),
+        # names in the XML namespace: xml:lang attributes and an xml:a element (prefix xml is always in scope)
+        ('N3-R1-xml', dict(N=3, Kinds={"a0", "ax", "xax", "xa0", "t"}, RootCfg="R1", Decls={"none"}, DocLevel=False)),
+        ('N3-R3-xml', dict(N=3, Kinds={"a0", "ax", "xax", "xa0", "c"}, RootCfg="R3", Decls={"none"}, DocLevel=False)),
+        # one wide fragment: 12 like-named children of a like-named root (two-digit positions)
+        ('N13-R3-wide', dict(N=13, Kinds={"a0"}, RootCfg="R3", Decls={"none"}, DocLevel=False, Flat=True)),
+        ('N13-R2-wide', dict(N=13, Kinds={"a0", "t"}, RootCfg="R2", Decls={"none"}, DocLevel=False, Flat=True)),
     ],
     'thorough': [
+        ('N3-R1-xml', dict(N=3, Kinds={"a0", "ax", "xax", "xa0", "t"}, RootCfg="R1", Decls={"none"}, DocLevel=False)),
+        ('N4-R3-xml', dict(N=4, Kinds={"a0", "ax", "xax", "xa0", "c"}, RootCfg="R3", Decls={"none"}, DocLevel=False)),
+        ('N13-R3-wide', dict(N=13, Kinds={"a0"}, RootCfg="R3", Decls={"none"}, DocLevel=False, Flat=True)),
+        ('N13-R2-wide', dict(N=13, Kinds={"a0", "t"}, RootCfg="R2", Decls={"none"}, DocLevel=False, Flat=True)),
         ('N1-R4', dict(N=1, Kinds={"c", "pp", "pa"}, RootCfg="R4", Decls={"none"}, DocLevel=False)),
         ('N4-R1', dict(N=4, Kinds=ALL_KINDS, RootCfg="R1", Decls=ALL_DECLS, DocLevel=True)),
         ('N4-R2', dict(N=4, Kinds=ALL_KINDS, RootCfg="R2", Decls=ALL_DECLS, DocLevel=False)),
@@ -125,8 +135,9 @@ INVARIANTS = ['TypeOK', 'Laws']
 # ---------------------------------------------------------------------------------------
 # binding table: abstract tree of spec/XDMX.tla <-> xml.etree / lxml objects (dumb, 1:1)
 
-TAG = {'a0': 'a', 'b0': 'b', 'an': '{urn:n}a', 'ad': '{urn:d}a', 'bd': '{urn:d}b'}
-ATTR = {'xa0': 'a', 'xan': '{urn:n}a'}
+TAG = {'a0': 'a', 'b0': 'b', 'an': '{urn:n}a', 'ad': '{urn:d}a', 'bd': '{urn:d}b',
+       'ax': '{http://www.w3.org/XML/1998/namespace}a'}
+ATTR = {'xa0': 'a', 'xan': '{urn:n}a', 'xax': '{http://www.w3.org/XML/1998/namespace}lang'}
 ALPHA: dict = {}      # binding of the abstract name tokens "b" / "urn:n" to concrete names (per configuration)
 
 
@@ -153,7 +164,8 @@ TARGET = {'pp': 'pi', 'pa': 'a'}
 NSMAP = {'none': {}, 'p': {'p': 'urn:n'}, 'dp': {'': 'urn:d', 'p': 'urn:n'}}
 NS_IDX = {'xml': 1, '': 2, 'p': 3}
 XML_NS = 'http://www.w3.org/XML/1998/namespace'
-KIND_CLASS = {'a0': 'elem', 'b0': 'elem', 'an': 'elem', 'ad': 'elem', 'bd': 'elem', 'xa0': 'attr', 'xan': 'attr',
+KIND_CLASS = {'a0': 'elem', 'b0': 'elem', 'an': 'elem', 'ad': 'elem', 'bd': 'elem', 'ax': 'elem',
+              'xa0': 'attr', 'xan': 'attr', 'xax': 'attr',
               'pp': 'pi', 'pa': 'pi', 't': 'text', 'te': 'text', 'c': 'comment'}
 
 
@@ -451,7 +463,7 @@ class Recorder:
     def __init__(self):
         self.failures: dict = {}
         self.stats = dict(states=0, transitions=0, evaluations=0, nontrivial=0, lx_evals=0, string_checks=0,
-                          select_checks=0, history_checks=0)
+                          select_checks=0, history_checks=0, context_item_checks=0)
         self.oracle: list = []
         self.samples: list = []
 
@@ -837,6 +849,29 @@ def tree_worker(job):
                                  case(lib, what='eval', text=text, parser=pv, mode=mode, item=item_id,
                                       scheme=scheme, node=n, xml=doc.xml()),
                                  exp, obs)
+        # ---- the fn:path text must select the node from EVERY context item of the tree ('/' and fn:root() do not
+        # depend on it): an attribute, a namespace node, the node itself; for the last node also a text and the last element
+        items = {}
+        for m in all_nodes:
+            km = kind_of(kind, m)
+            if km in ('attr', 'ns', 'text'):
+                items.setdefault(km, m)
+            elif km == 'elem':
+                items['elem'] = m
+        for n in all_nodes:
+            ctx_items = [('self', n)] + [(k, items[k]) for k in ('attr', 'ns') if k in items]
+            if n == all_nodes[-1]:
+                ctx_items += [(k, items[k]) for k in ('text', 'elem') if k in items]
+            for ck, x in ctx_items:
+                obs = env.evaluate(txt[n]['fn'], '3.1', 'nodes', x, 'fn')
+                st['evaluations'] += 1
+                st['select_checks'] += 1
+                st['context_item_checks'] = st.get('context_item_checks', 0) + 1
+                if obs != [n]:
+                    rec.fail(feat(n, api='eval', check='select', scheme='fn', lib=lib, parser='3.1', mode='nodes',
+                                  context_item=ck, outcome=select_outcome(obs, [n])),
+                             case(lib, what='eval', text=txt[n]['fn'], parser='3.1', mode='nodes', item=x, scheme='fn',
+                                  node=n, xml=doc.xml()), [n], obs)
         # ---- one bulk evaluation: fn:path of every non-namespace node, in document order
         for pv in ('3.0', '3.1'):
             exp = [txt[n]['fn'] for n in all_nodes if n < 100]
@@ -924,7 +959,7 @@ def negative_model(chk: core.Check) -> None:
     counterexample of the known defects) and accept it in the control universe."""
     name, consts = NEGATIVE
     wd = os.path.join(chk.scratch, name)
-    cfg = tla.cfg_text(consts, spec='Spec', invariants=['ImplSoundInv'])
+    cfg = tla.cfg_text(dict(consts, Flat=False), spec='Spec', invariants=['ImplSoundInv'])
     r = tla.run_tlc('PathStrings', cfg, wd, workers=4)
     if r.violated != 'ImplSoundInv':
         raise tla.MachineryError(f'negative model: TLC did not refute ImplSoundInv (rc={r.returncode}, '
@@ -934,7 +969,7 @@ def negative_model(chk: core.Check) -> None:
              states=r.distinct, constants={k: (sorted(v) if isinstance(v, set) else v) for k, v in consts.items()}))
     name, consts = NEGATIVE_CTRL
     wd = os.path.join(chk.scratch, name)
-    cfg = tla.cfg_text(consts, spec='Spec', invariants=['ImplSoundInv'] + INVARIANTS)
+    cfg = tla.cfg_text(dict(consts, Flat=False), spec='Spec', invariants=['ImplSoundInv'] + INVARIANTS)
     r = tla.require_ok(tla.run_tlc('PathStrings', cfg, wd, workers=4), 'PathStrings/impl-ctrl')
     chk.coverage['negative_models'].append(
         dict(module='PathStrings/impl-ctrl', invariant='ImplSoundInv', result='holds (one PI target, no name clash)',
@@ -969,7 +1004,7 @@ def run(chk: core.Check) -> None:
     only = os.environ.get('VERIF_C14_ONLY')      # development aid: comma separated configuration names
     if only:
         cfgs = [c for c in cfgs if c[0] in only.split(',')]
-    cfgs = [(c[0], c[1], c[2] if len(c) > 2 else None) for c in cfgs]
+    cfgs = [(c[0], dict({'Flat': False}, **c[1]), c[2] if len(c) > 2 else None) for c in cfgs]
     chk.coverage['configs'] = [dict(name=n, name_binding=a, **{k: (sorted(v) if isinstance(v, set) else v)
                                                                for k, v in c.items()}) for n, c, a in cfgs]
     all_oracle = 0
@@ -1030,6 +1065,7 @@ def run(chk: core.Check) -> None:
             chk.add('roundtrip_evaluations', stats['select_checks'])
             chk.add('second_oracle_evaluations', stats['lx_evals'])
             chk.add('history_evaluations_on_shared_tokens', stats.get('history_checks', 0))
+            chk.add('evaluations_from_other_context_items', stats.get('context_item_checks', 0))
             chk.add('distinct_nontrivial', stats['nontrivial'])
             chk.add('traces_validated_against_impl', stats['states'])
             all_oracle += n_odis
